@@ -77,14 +77,15 @@ def _nt_cases(tier, rng):
         if tier == "thorough": return range(65536)
         s = set(range(0, 1100)) | set(range(0x7f00, 0x7f40)) | set(range(0xfd00, 0x10000)) | set(range(13100, 13200))
         s |= set(range(0x0a00, 0xfb00, 0x101)) | {rng.randrange(65536) for _ in range(3000)}
-        return sorted(s)
+        s |= {0x0a0a + 0x1010 * k for k in range(16)} | {0x0a0a + 0x1010 * k + d for k in range(16) for d in (-1, 1, 0x100, -0x100)}   # GREASE and neighbours
+        return sorted(x for x in s if 0 <= x < 65536)
     out = []
     for t in NT8:
         out += ["@nt %s %d" % (t, n) for n in range(256)]
     for t in NT16:
         out += ["@nt %s %d" % (t, n) for n in dom16()]
     for t, w in CONV.items():
-        out += ["@conv %s %d" % (t, n) for n in (range(256) if w == 8 else dom16())]
+        out += ["@conv %s %d" % (t, n) for n in (range(256) if w == 8 else range(65536))]
     out += ["@sig %d" % n for n in dom16()]
     out += ["@keybits %d" % n for n in dom16()]
     return [Case(l, "", "registry") for l in out]
@@ -351,7 +352,9 @@ def _defrag_histories(tier, seed, rng):
             if r < 0.25:    # foreign-type record in the middle
                 ops.insert(rng.randrange(1, len(ops) + 1), rec("P", rng.choice([20, 21, 22, 23, 24, 99]), ver, bytes([1, 2])))
             elif r < 0.4:
-                ops.insert(rng.randrange(1, len(ops) + 1), rec("N", ct, ver, p))
+                # parse_record_nocopy while defragmenting: same type, and the types that are never defragmented
+                nct, npay = rng.choice([(ct, p), (20, b"\x01"), (21, b"\x01\x00"), (22, bytes([14, 0, 0, 0])), (23, b"\xaa"), (24, bytes([1, 0, 0]))])
+                ops.insert(rng.randrange(1, len(ops) + 1), rec("N", nct, ver, npay))
             elif r < 0.55:
                 ops.insert(rng.randrange(0, len(ops) + 1), "R")
             elif r < 0.7:   # reuse after completion: a second payload follows
@@ -405,6 +408,14 @@ def _defrag_histories(tier, seed, rng):
         ops.append(rec("P", 22, 0x0303, bytes(16640))) # refused
         ops.append(rec("P", 22, 0x0303, b""))          # still below: accepted, still incomplete
         add(ops, origin="oversize")
+    for nct, npay in ((20, b"\x01"), (21, b"\x01\x00"), (22, bytes([14, 0, 0, 0])), (23, b"\xaa"), (24, bytes([1, 0, 0])), (99, b"\x00")):
+        add([rec("P", 22, 0x0303, bytes([14, 0])), rec("N", nct, 0x0303, npay), rec("P", nct, 0x0303, npay), rec("P", 22, 0x0303, bytes([0, 0]))], origin="nocopy-busy")
+        add([rec("P", 24, 0x0303, bytes([1, 0, 8, 65])), rec("N", nct, 0x0303, npay), rec("P", 24, 0x0303, bytes(23))], origin="nocopy-busy")
+    # a first fragment that is itself beyond the limit (hand-built record: the fields are public), then continuations:
+    # outside the property's size clause (records beyond the cap), but still no panic and still refused (implementation only)
+    huge = hdr + bytes(total + 5)
+    add([rec("P", 22, 0x0303, huge), rec("P", 22, 0x0303, bytes(10)), rec("P", 22, 0x0303, b""), rec("N", 22, 0x0303, bytes(3)), "R",
+         rec("P", 22, 0x0303, bytes([14, 0, 0, 0]))], origin="stress")
     # the same stream with records inside the record-length cap (implementation only: origin "stress" is not run
     # through the extracted model, which would re-parse megabytes on every call); decided by the accumulate-then-parse
     # oracle: refusals at the limit leave the buffer unchanged, a fragment that still fits is accepted afterwards
@@ -630,9 +641,10 @@ def direct_oracle(pid, case, impl_out):
             body, p, b = items[-1]
             if vlib.strip_offsets(body) != vlib.strip_offsets(want) or p != "0":
                 return "split payload: the last call must return the unsplit result %s and end defragmentation" % want
+        within_cap = all(len(op.split(",")) < 5 or len(op.split(",")[4]) // 2 <= 16384 + 256 or op.split(",")[4] == "-" for op in case.line.split(" ")[1:])
         for m in re.finditer(r" (\d) (\d+)\]", impl_out):
-            if m.group(1) == "1" and int(m.group(2)) >= 10 * 1024 * 1024:
-                return "defragmentation buffer reached 10 MiB while in progress"
+            if within_cap and m.group(1) == "1" and int(m.group(2)) >= 10 * 1024 * 1024:
+                return "defragmentation buffer reached 10 MiB while in progress (all records within the record-length cap)"
     return None
 
 def post_oracle(pid, cases, outs):
@@ -1073,6 +1085,26 @@ def _hello_cases(tier, seed, rng):
         comps = ".".join(str(rng.randrange(256)) for _ in range(rng.randrange(0, 3))) or "-"
         out.append("@hello new %d %s %s %s %s %s" % (rng.randrange(65536), hxs(rl), rng.choice(["N", hxs(rng.randrange(0, 33))]), ciphers, comps, rng.choice(["N", hxs(rng.randrange(0, 8))])))
         out.append("@hello shnew %d %s %s %d %d %s" % (rng.randrange(65536), hxs(rl), rng.choice(["N", hxs(4)]), rng.choice(listed + [rng.randrange(65536)]), rng.randrange(256), rng.choice(["N", hxs(3)])))
+    # every id of the registry file and both neighbours, in order, through the constructed hellos (cipher_suites /
+    # get_ciphers map each to its registry entry or None; get_cipher likewise): complete over the registered ids
+    import os
+    reg = sorted({int(l.split(":")[0], 16) for l in open(os.path.join(vlib.REPO, "scripts", "tls-ciphersuites.txt")) if l.count(":") >= 9})
+    ids = sorted({x for i in reg for x in (i - 1, i, i + 1) if 0 <= x < 65536})
+    for k in range(0, len(ids), 40):
+        chunk = ids[k:k + 40]
+        out.append("@hello new 771 %s N %s 0 N" % (hxs(32), ".".join(str(i) for i in chunk)))
+        out.append("@hello new 771 %s N %s 0 N" % (hxs(32), ".".join(str(i) for i in reversed(chunk))))
+    for i in ids:
+        out.append("@hello shnew 771 %s N %d 0 N" % (hxs(32), i))
+    # the accessors return the structure's own fields for every version value that code might single out
+    for v in (0x0000, 0x0001, 0x0002, 0x0100, 0x0200, 0x0300, 0x0301, 0x0302, 0x0303, 0x0304, 0x7f12, 0xfefd, 0xfefe, 0xfeff, 0xffff):
+        out.append("@hello new %d %s N 4865 0 N" % (v, hxs(32)))
+        out.append("@hello shnew %d %s N 4865 0 N" % (v, hxs(32)))
+        R = hxs(32)
+        out.append("@hello tls %04x%s00000213010100" % (v, R))
+        body = "%04x%s0000000213010100" % (v, R)      # DTLS ClientHello: empty session id, empty cookie
+        n = len(body) // 2
+        out.append("@hello dtls 01%06x0000000000%06x%s" % (n, n, body))
     return [Case(l, "", "hello") for l in out]
 
 def _stress_cases(tier, rng):
